@@ -852,3 +852,17 @@ def tuple_is_not_a_list():
     if not isinstance(labs, list):
         labs = [labs] * len(nums)
     return len(labs), isinstance(nums, tuple), isinstance([1.0], list), isinstance((1.0,), list)
+
+
+def enumerate_from_one():
+    out = []
+    for k, x in enumerate([5, 6, 7], 1):
+        out.append(k * x)
+    return out, [k for k, _ in enumerate("ab", start=3)]
+
+
+def starred_list_display():
+    a = np.array([[1, 2], [3, 4]])
+    b = [[5, 6]]
+    both = [*a, *b]
+    return len(both), [x[0] + x[1] for x in both]
